@@ -77,8 +77,9 @@ func (c *Consistent) pick(sessions *sync.Map, key string) getty.Session {
 	c.RUnlock()
 
 	if session.IsClosed() {
+		// the ring is stale: rebuild it in the background and answer from the live sessions
 		go c.refreshHashCircle(sessions)
-		return c.firstKey()
+		return RandomLoadBalance(sessions, key)
 	}
 
 	return session
